@@ -360,6 +360,39 @@ type c11Stress struct {
 	HitMissExpected int64  `json:"hit_miss_expected"`
 	LostLive        int64  `json:"lost_live"`        // entries stored during a sweep, inside their lifetime, that were gone afterwards
 	SweepConclusive int64  `json:"sweep_conclusive"` // re-created entries looked up while still young
+	SizeOver        int64  `json:"size_over"`        // Size() results above the capacity while fresh keys were being stored into a full cache
+}
+
+// c11SizeBound: a full cache, one goroutine storing fresh keys (every Put evicts), others polling Size(): in every
+// one-at-a-time order a Size call sees at most `capacity` entries.
+func c11SizeBound() (over int64) {
+	for _, capacity := range []int{1, 3, 16} {
+		c := cache.NewLRUCache(capacity, 0)
+		for i := 0; i < capacity; i++ {
+			c.Put(fmt.Sprintf("seed%d", i), i)
+		}
+		var stop atomic.Bool
+		var wg sync.WaitGroup
+		var bad atomic.Int64
+		for g := 0; g < 3; g++ {
+			wg.Add(1)
+			go func() {
+				defer wg.Done()
+				for !stop.Load() {
+					if c.Size() > capacity {
+						bad.Add(1)
+					}
+				}
+			}()
+		}
+		for i := 0; i < 60000; i++ {
+			c.Put(fmt.Sprintf("fresh%d", i), i)
+		}
+		stop.Store(true)
+		wg.Wait()
+		over += bad.Load()
+	}
+	return
 }
 
 // c11SweepReinsert: many entries expire together; one goroutine sweeps while another looks the youngest keys up (miss) and stores
@@ -473,6 +506,7 @@ func c11RunStress(r *rand.Rand, dir string) c11Stress {
 	wg.Wait()
 	st.SearchesRec = monitored.Load()
 	st.LostLive, st.SweepConclusive = c11SweepReinsert()
+	st.SizeOver = c11SizeBound()
 	// the same searches with a semantic index attached (word vectors for every query word, one vector per command):
 	// each concurrent answer must again be the answer of the search run alone
 	func() {
